@@ -17,8 +17,6 @@ pub struct PropDef {
     /// minimum number of non-trivial evaluations for a complete run (non-vacuity self-check)
     pub floor: fn(Tier) -> u64,
     pub run: fn(&mut Run) -> Result<(), MachineryError>,
-    /// C04 / C20: a panic or hang of subject code is itself the violation
-    pub panics_are_verdict: bool,
 }
 
 pub const BOTH: &[&str] = &["full", "min"];
@@ -79,6 +77,66 @@ pub fn text_space(r: &mut Run, name: &str, alpha: &[Sym], n: usize, gamma: &Gamm
             for w in widths(hi) {
                 let cfg = Cfg { width: w, ..*base };
                 check_wrap(text, &cfg, mask, cx);
+            }
+        }
+    })
+}
+
+/// "Every character in a fixed context": the scalar values enumerated by the all-characters
+/// passes.  Quick = complete sub-ranges chosen to contain every script class the code
+/// distinguishes (controls, Latin, combining marks, general punctuation incl. zero-width and
+/// soft hyphen, CJK, Hangul Jamo, fullwidth forms, emoji, variation selectors/tags);
+/// thorough = all 0x110000 code points (surrogates skipped).
+pub const QUICK_BLOCKS: &[(u32, u32)] = &[(0x0000, 0x33FF), (0x4E00, 0x4FFF), (0xAC00, 0xACFF), (0xFE00, 0xFFFF), (0x1F000, 0x1FAFF), (0xE0000, 0xE01FF)];
+
+pub fn scalar_space(t: Tier) -> u64 {
+    match t {
+        Tier::Quick => QUICK_BLOCKS.iter().map(|&(a, b)| (b - a + 1) as u64).sum(),
+        Tier::Thorough => 0x110000,
+    }
+}
+
+pub fn scalar_at(t: Tier, i: u64) -> Option<char> {
+    match t {
+        Tier::Thorough => char::from_u32(i as u32),
+        Tier::Quick => {
+            let mut i = i as u32;
+            for &(a, b) in QUICK_BLOCKS {
+                let n = b - a + 1;
+                if i < n {
+                    return char::from_u32(a + i);
+                }
+                i -= n;
+            }
+            None
+        }
+    }
+}
+
+pub fn scalar_desc(t: Tier) -> String {
+    match t {
+        Tier::Quick => format!("every scalar value in the blocks {:X?}", QUICK_BLOCKS),
+        Tier::Thorough => "every Unicode scalar value (0..=0x10FFFF minus surrogates)".to_string(),
+    }
+}
+
+/// Wrap-level oracles on every character in two fixed text contexts.
+pub fn char_context_space(r: &mut Run, name: &str, mask: u32, algs: Vec<Alg>) -> Result<(), MachineryError> {
+    let t = r.tier;
+    let g = Gamma { seps: seps(), algs, spls: vec![Spl::Hyphen], bws: vec![true, false], indents: vec![("", ""), (">", "")], crlf: vec![false] };
+    let bases = g.bases();
+    r.range(name, &format!("{}; each in the texts \"ac cb\" and \"cc-c d\"; {}; widths 0..=5, MAX", scalar_desc(t), g.describe()), scalar_space(t), move |i, cx| {
+        let c = match scalar_at(t, i) {
+            Some(c) => c,
+            None => return,
+        };
+        cx.seq = idx_seq(i);
+        for text in [format!("a{c} {c}b"), format!("{c}{c}-{c} d")] {
+            cx.set_input(&text);
+            for base in &bases {
+                for w in (0..=5).chain([usize::MAX]) {
+                    check_wrap(&text, &Cfg { width: w, ..*base }, mask, cx);
+                }
             }
         }
     })
